@@ -17,6 +17,9 @@
 #include <climits>
 #include <cmath>
 #include <vector>
+#include <sys/prctl.h>
+#include <sys/resource.h>
+#include <sys/wait.h>
 
 using pf::Arg;
 
@@ -129,9 +132,9 @@ struct Parsed
 // decimal exponent of |x| rendered with nd significant digits (glibc), x finite and nonzero
 static int dec_exponent(double ax, int nd)
 {
-    char b[64];
-    snprintf(b, sizeof b, "%.*e", nd - 1, ax);
-    const char *e = strchr(b, 'e');
+    std::vector<char> b((size_t)nd + 40);
+    snprintf(b.data(), b.size(), "%.*e", nd - 1, ax);
+    const char *e = strchr(b.data(), 'e');
     return atoi(e + 1);
 }
 
@@ -309,6 +312,8 @@ static std::string cls_text(const FDir &d)
     c += lower(d.conv);
     c += ':';
     c += val_class(d.x);
+    if ((d.pk == P_LIT || d.pk == P_STAR) && d.prec > 17)
+        c += ":P>17";
     return c;
 }
 
@@ -324,7 +329,7 @@ static void fmt_args(const FDir &d, std::string &fmt, std::vector<Arg> &args)
 
 static long double g_max_err_units = 0; // largest observed error in units of the allowance (per worker; reported via VF_MAX)
 
-static void check_one(const FDir &d, const std::string &prefix, const std::string &suffix)
+static void check_one(const FDir &d, const std::string &prefix, const std::string &suffix, pf::Result *capture = nullptr)
 {
     if (pf::skip_after_hangs())
     {
@@ -354,6 +359,11 @@ static void check_one(const FDir &d, const std::string &prefix, const std::strin
             g_feat[8 + i]++;
     vf::cls(cls.c_str());
     pf::Result r = pf::run_igris(fmt.c_str(), args.data(), (int)args.size());
+    if (capture)
+        *capture = r;
+    // precisions beyond the 0..17 of the main grid get their own keys (":P>17")
+    bool pgiven = d.pk == P_LIT || d.pk == P_DOT || (d.pk == P_STAR && d.prec >= 0);
+    const char *ptag = pgiven && d.pk != P_DOT && d.prec > 17 ? ":P>17" : "";
     uint64_t h = vf::hash_bytes(fmt.data(), fmt.size(), bits);
     h = vf::mix(h, ((uint64_t)(uint32_t)d.width << 32) | (uint32_t)d.prec);
     vf::count_case(h, true);
@@ -364,21 +374,21 @@ static void check_one(const FDir &d, const std::string &prefix, const std::strin
     char lc = lower(d.conv);
     if (r.runaway)
     {
-        snprintf(key, sizeof key, "runaway-output:%%%c:%s", lc, vc);
+        snprintf(key, sizeof key, "runaway-output:%%%c:%s%s", lc, vc, ptag);
         vf::fail_nothrow(key, "format=\"%s\" args=[%s]: more than %d characters emitted; starts \"%s\"", fmt.c_str(), a.c_str(), pf::CAP_LIMIT,
                          shown.c_str());
         return;
     }
     if (r.bad_char)
     {
-        snprintf(key, sizeof key, "callback-char:%%%c:%s", lc, vc);
+        snprintf(key, sizeof key, "callback-char:%%%c:%s%s", lc, vc, ptag);
         vf::fail_nothrow(key, "format=\"%s\" args=[%s]: callback received a value outside the char range; output \"%s\"", fmt.c_str(), a.c_str(),
                          shown.c_str());
         return;
     }
     if (r.ret != (int)r.bytes.size())
     {
-        snprintf(key, sizeof key, "return:%%%c:%s", lc, vc);
+        snprintf(key, sizeof key, "return:%%%c:%s%s", lc, vc, ptag);
         vf::fail_nothrow(key, "format=\"%s\" args=[%s]: returned %d, emitted %zu characters \"%s\"", fmt.c_str(), a.c_str(), r.ret, r.bytes.size(),
                          shown.c_str());
         return;
@@ -394,7 +404,7 @@ static void check_one(const FDir &d, const std::string &prefix, const std::strin
     if (r.bytes.size() < prefix.size() + suffix.size() || r.bytes.compare(0, prefix.size(), prefix) != 0 ||
         r.bytes.compare(r.bytes.size() - suffix.size(), suffix.size(), suffix) != 0)
     {
-        snprintf(key, sizeof key, "shape:%%%c:literal-text:%s", lc, vc);
+        snprintf(key, sizeof key, "shape:%%%c:literal-text:%s%s", lc, vc, ptag);
         vf::fail_nothrow(key, "format=\"%s\" args=[%s]: literal text around the directive not reproduced: \"%s\"", fmt.c_str(), a.c_str(), shown.c_str());
         return;
     }
@@ -404,7 +414,7 @@ static void check_one(const FDir &d, const std::string &prefix, const std::strin
     const char *rule = check_shape(d, out, P, why);
     if (rule)
     {
-        snprintf(key, sizeof key, "shape:%%%c:%s:%s", lc, rule, vc);
+        snprintf(key, sizeof key, "shape:%%%c:%s:%s%s", lc, rule, vc, ptag);
         char ref[512];
         {
             // the host rendering is shown in the witness for orientation only; it is not the oracle
@@ -450,7 +460,7 @@ static void check_one(const FDir &d, const std::string &prefix, const std::strin
         // 64 ulp(x): wrong rounding direction, lost or garbled digit) and arithmetic noise of the digit generation
         // (more than the 4 ulp the statement concedes, but below 64 ulp).  Both are violations.
         bool noise = err <= unit / 2 + 64 * ulp;
-        snprintf(key, sizeof key, "%s:%%%c:%s", noise ? "accuracy-ulps" : "accuracy", lc, vc);
+        snprintf(key, sizeof key, "%s:%%%c:%s%s", noise ? "accuracy-ulps" : "accuracy", lc, vc, noise ? "" : ptag); // the noise finding is per (conversion, class)
         vf::fail_nothrow(key, "format=\"%s\" args=[%s] igris=\"%s\": parsed back it is off by %.3Lg = half a unit of the last digit (%.3Lg) + %.2Lf ulp; allowed: half a unit + 4 ulp (ulp = %.3Lg)",
                          fmt.c_str(), a.c_str(), shown.c_str(), err, unit / 2, (err - unit / 2) / ulp, ulp);
         return;
@@ -676,6 +686,7 @@ static const Witness WITNESS[] = {
     {'g', 17, 0xc3baddbf138cb2caull}, // accuracy-ulps:%g:abs<2^64  %.17g of -1.9359135055249925e+18
     {'g', 17, 0x00070193350d84daull}, // accuracy-ulps:%g:denormal  %.17g of 9.74325417157832e-309
     {'G', 15, 0x7e2e18f4a7a3db9full}, // accuracy-ulps:%g:huge  %.15G of 6.2987719210102838e+299
+    {'F', 330, 0x009c16c5c5253575ull}, // accuracy-ulps:%f:abs<1e-4  %.330F of 1e-305 (only reachable with a precision beyond 300)
 };
 static uint64_t witness_count() { return enabled("witness") ? sizeof WITNESS / sizeof WITNESS[0] : 0; }
 static void witness_run(uint64_t idx)
@@ -726,6 +737,372 @@ static void stress_run(uint64_t idx)
 }
 VF_SUITE(stress, stress_count, stress_run)
 
+// ---------------------------------------------------------------- suite 5: large precisions ("any flags, width and precision")
+// P in {18 .. 5000, dense around the engine's cap on generated fraction digits} x value classes x f e g F E G x widths,
+// literally and through '.*'.  Safety (terminates, bounded, return == emitted, ASan on print_f's buffer), ISO shape
+// (exactly P fraction digits, zero fill), parse-back; for values whose decimal expansion is short and exact the whole
+// text must equal host glibc's.
+static const int BIGP[] = {18, 30, 60, 100, 200, 330, 331, 332, 333, 334, 335, 336, 337, 338, 339, 340, 341, 342, 343, 344, 345, 400, 700, 1000, 5000};
+static const std::vector<double> &bigprec_values(std::vector<char> *exact = nullptr)
+{
+    static std::vector<double> V;
+    static std::vector<char> E; // decimal expansion short and exact: full comparison with glibc
+    if (V.empty())
+    {
+        auto add = [&](double v, bool ex) { V.push_back(v); E.push_back(ex); };
+        add(0.0, true);
+        add(4.9406564584124654e-324, false); // smallest denormal
+        add(1.4821969375237396e-323, false); // 3 units
+        add(1e-322, false);
+        add(1e-320, false);
+        add(1e-310, false);
+        add(2.2250738585072009e-308, false); // largest denormal
+        add(DBL_MIN, false);
+        add(1e-305, false);
+        add(1e-300, false);
+        add(0.1, false);
+        add(0.5, true);
+        add(1.0, true);
+        add(-2.5, true);
+        add(123.456, false);
+        add(1e15, true);
+        add(1e22, true);
+        add(DBL_MAX, false);
+    }
+    if (exact)
+        *exact = E;
+    return V;
+}
+static uint64_t bigprec_count() { return enabled("bigprec") ? (sizeof BIGP / sizeof BIGP[0]) * 6ull : 0; }
+static void bigprec_run(uint64_t idx)
+{
+    vf::Rng r(vf::seed(), 0xC13B, idx);
+    int P = BIGP[idx / 6];
+    char conv = CONVS[idx % 6];
+    std::vector<char> exact;
+    const std::vector<double> &V = bigprec_values(&exact);
+    static std::vector<char> refbuf(1 << 17);
+    for (size_t vi = 0; vi < V.size(); vi++)
+        for (int wsel = 0; wsel < 3; wsel++)
+        {
+            FDir d;
+            d.conv = conv;
+            d.x = (vi & 1) && V[vi] != -2.5 && r.chance(1, 2) ? -V[vi] : V[vi];
+            d.flags = r.chance(1, 2) ? 0 : (unsigned)r.below(32);
+            d.order = (unsigned)r.below(120);
+            bool star = r.chance(1, 3);
+            d.pk = star ? P_STAR : P_LIT;
+            d.prec = P;
+            int w = wsel == 0 ? 0 : wsel == 1 ? P + 10 : 2000;
+            if (w)
+            {
+                d.wk = r.chance(1, 3) ? W_STAR : W_LIT;
+                d.width = d.wk == W_STAR && r.chance(1, 2) ? -w : w;
+            }
+            pf::Result got;
+            check_one(d, "", "", &got);
+            if (exact[vi] && !got.runaway)
+            {
+                std::string fmt;
+                std::vector<Arg> args;
+                fmt_args(d, fmt, args);
+                auto call = [&](auto... xs) { return snprintf(refbuf.data(), refbuf.size(), fmt.c_str(), xs...); };
+                int n = pf::dispatch(call, args.data(), (int)args.size());
+                if (n < 0 || (size_t)n >= refbuf.size())
+                {
+                    fprintf(stderr, "C13: reference buffer too small\n");
+                    abort();
+                }
+                if (got.bytes.size() != (size_t)n || memcmp(got.bytes.data(), refbuf.data(), (size_t)n) != 0 || got.ret != n)
+                {
+                    char key[vf::KEY_LEN];
+                    size_t k = 0;
+                    while (k < got.bytes.size() && k < (size_t)n && got.bytes[k] == refbuf[k])
+                        k++;
+                    snprintf(key, sizeof key, "exact-value-text:%%%c:%s:P>17", lower(conv), val_class(d.x));
+                    vf::fail_nothrow(key, "format=\"%s\" args=[%s]: the value has a short exact decimal expansion, yet the text (%zu chars, ret %d) differs from host glibc's (%d chars) first at offset %zu: igris \"...%s\" glibc \"...%s\"",
+                                     fmt.c_str(), pf::args_text(args.data(), (int)args.size()).c_str(), got.bytes.size(), got.ret, n, k,
+                                     vf::esc(got.bytes.data() + (k > 8 ? k - 8 : 0), std::min<size_t>(40, got.bytes.size() - (k > 8 ? k - 8 : 0))).c_str(),
+                                     vf::esc(refbuf.data() + (k > 8 ? k - 8 : 0), std::min<size_t>(40, (size_t)n - (k > 8 ? k - 8 : 0))).c_str());
+                }
+                else
+                    VF_OK("large precision, exact short decimal value: whole text == host glibc");
+            }
+            VF_OK("large precision (18..5000) directive evaluated");
+        }
+    flush_features();
+}
+VF_SUITE(bigprec, bigprec_count, bigprec_run)
+
+// ---------------------------------------------------------------- suite 6: first use — hidden state set up by the first conversion of a process
+// Each case runs its directives in a FRESH process.  A fork of the worker is not fresh (the worker has formatted before
+// and the child inherits whatever the engine cached), so the child re-executes this binary (/proc/self/exe) with
+// C13_FIRSTUSE_CHILD set; vf_setup() diverts it into firstuse_child() before the runner does anything.
+// The first conversion of the fresh process is drawn from a list of histories (%a / %A use print_f with base 16 - not
+// part of C13's statement, only the history -, a huge-precision %f, NaN/inf, integer and string conversions, or nothing);
+// then rounding-carry witnesses and a seeded sample of the grid run, and every text and return value must equal the
+// rendering of the warm worker process (which the ordinary oracles have just judged).
+struct History
+{
+    const char *name;
+    const char *fmt;
+    int kind; // 0 none, 1 double, 2 int, 3 string
+    double d;
+};
+static const History HISTORY[] = {{"none", "", 0, 0},
+                                  {"%a", "%a", 1, 0.999},
+                                  {"%A", "%.3A", 1, 1234.5},
+                                  {"%f", "%f", 1, 42.25},
+                                  {"%e", "%.3e", 1, 9.9996},
+                                  {"%g", "%g", 1, 0.0001},
+                                  {"%d", "%d", 2, 0},
+                                  {"%s", "%s", 3, 0},
+                                  {"%.400f", "%.400f", 1, 4.9406564584124654e-324},
+                                  {"nan", "%f", 1, NAN},
+                                  {"inf", "%e", 1, INFINITY}};
+enum
+{
+    NHISTORY = sizeof HISTORY / sizeof HISTORY[0]
+};
+struct Carry
+{
+    const char *fmt;
+    double x;
+};
+static const Carry CARRY[] = {{"%.2f", 0.999},    {"%.3e", 9.9996},   {"%.0f", 0.5},      {"%.0f", 1.5},        {"%.0f", 2.5},      {"%.0f", 9.5},
+                              {"%.0f", 99.5},     {"%.1f", 0.95},     {"%.1f", 9.95},     {"%.1f", 0.25},       {"%.1f", 0.05},     {"%g", 999999.5},
+                              {"%g", 0.00099999995}, {"%.5g", 99999.9}, {"%.3f", 1999.9996}, {"%e", 9.9999995},  {"%.0e", 9.5},      {"%#.0f", 0.5},
+                              {"%.2f", 99.999},   {"%.4f", 0.99999},  {"%.6f", 0.9999999}, {"%.10f", 0.99999999999}, {"%.15f", 0.9999999999999999}, {"%.2e", 9.999e100},
+                              {"%.1e", 9.96e-100}, {"%.3g", 0.0009996}, {"%f", 1.9999999},  {"%.12e", 9.9999999999996}, {"%.20f", 0.5},   {"%.2f", -0.996}};
+enum
+{
+    NCARRY = sizeof CARRY / sizeof CARRY[0]
+};
+static FDir carry_dir(const Carry &c)
+{
+    // parse the small witness formats back into a directive ("%[#].<P><conv>" or "%<conv>")
+    FDir d;
+    const char *p = c.fmt + 1;
+    if (*p == '#')
+        d.flags |= F_HASH, p++;
+    if (*p == '.')
+    {
+        d.pk = P_LIT;
+        d.prec = atoi(p + 1);
+        p++;
+        while (*p >= '0' && *p <= '9')
+            p++;
+    }
+    d.conv = *p;
+    d.x = c.x;
+    return d;
+}
+static FDir random_grid_dir(vf::Rng &r)
+{
+    FDir d;
+    d.conv = CONVS[r.below(6)];
+    d.flags = r.chance(1, 2) ? 0 : (unsigned)r.below(32);
+    d.order = (unsigned)r.below(120);
+    d.x = r.chance(1, 3) ? fixed_values()[r.below(fixed_values().size() - 2)] : random_value(r);
+    if (!std::isfinite(d.x))
+        d.x = 0.999;
+    if (r.chance(1, 2))
+        d.x = -d.x;
+    if (r.chance(1, 3))
+        d.wk = W_LIT, d.width = r.chance(1, 2) ? 12 : 30;
+    if (r.chance(3, 4))
+        d.pk = P_LIT, d.prec = (int)r.range(0, 17);
+    return d;
+}
+static void plain_cb(void *d, int c)
+{
+    std::string *s = (std::string *)d;
+    if (s->size() >= 100000)
+        _exit(66); // unbounded output (only the re-executed child uses this sink): end at once, the parent reports it
+    s->push_back((char)c);
+}
+static int ig_plain_v(std::string *s, const char *fmt, ...)
+{
+    va_list ap;
+    va_start(ap, fmt);
+    int r = __printf(plain_cb, s, fmt, ap);
+    va_end(ap);
+    return r;
+}
+// the re-executed child: input on fd `in` (line 1: history index; then one line per directive:
+// format TAB n TAB int... TAB double-bits TAB expected-bytes-hex TAB expected-return), verdict on fd `out` + exit status
+static void firstuse_child(int in, int out)
+{
+    std::string data;
+    char buf[4096];
+    ssize_t n;
+    while ((n = read(in, buf, sizeof buf)) > 0)
+        data.append(buf, (size_t)n);
+    size_t pos = data.find('\n');
+    if (pos == std::string::npos)
+        _exit(90);
+    const History &H = HISTORY[atoi(data.c_str()) % NHISTORY];
+    std::string sink;
+    if (H.kind == 1)
+        ig_plain_v(&sink, H.fmt, H.d);
+    else if (H.kind == 2)
+        ig_plain_v(&sink, H.fmt, 12345);
+    else if (H.kind == 3)
+        ig_plain_v(&sink, H.fmt, "history");
+    size_t lineno = 0;
+    for (pos++; pos < data.size(); lineno++)
+    {
+        size_t e = data.find('\n', pos);
+        if (e == std::string::npos)
+            break;
+        std::string line = data.substr(pos, e - pos);
+        pos = e + 1;
+        std::vector<std::string> f;
+        size_t a = 0;
+        for (;;)
+        {
+            size_t t = line.find('\t', a);
+            f.push_back(line.substr(a, t == std::string::npos ? std::string::npos : t - a));
+            if (t == std::string::npos)
+                break;
+            a = t + 1;
+        }
+        if (f.size() < 5)
+            _exit(91);
+        int ni = atoi(f[1].c_str());
+        if ((int)f.size() != 5 + ni)
+            _exit(92);
+        std::vector<Arg> args;
+        for (int i = 0; i < ni; i++)
+            args.push_back(Arg::mk_i(strtoull(f[2 + (size_t)i].c_str(), nullptr, 16)));
+        args.push_back(Arg::mk_d(from_bits(strtoull(f[2 + (size_t)ni].c_str(), nullptr, 16))));
+        std::string want;
+        const std::string &hx = f[3 + (size_t)ni];
+        for (size_t i = 0; i + 1 < hx.size(); i += 2)
+            want.push_back((char)strtoul(hx.substr(i, 2).c_str(), nullptr, 16));
+        int want_ret = atoi(f[4 + (size_t)ni].c_str());
+        std::string got;
+        auto call = [&](auto... xs) { return ig_plain_v(&got, f[0].c_str(), xs...); };
+        int ret = pf::dispatch(call, args.data(), (int)args.size());
+        if (got != want || ret != want_ret)
+        {
+            char msg[900];
+            const char *cv = f[0].c_str() + f[0].size() - 1;
+            int m = snprintf(msg, sizeof msg, "%c|directive #%zu format=\"%s\" args=[%s]: fresh process printed \"%s\" (ret %d), warm process \"%s\" (ret %d)", lower(*cv),
+                             lineno, f[0].c_str(), pf::args_text(args.data(), (int)args.size()).c_str(), vf::esc(got.data(), got.size(), 100).c_str(), ret,
+                             vf::esc(want.data(), want.size(), 100).c_str(), want_ret);
+            if (m > 0)
+                (void)!write(out, msg, (size_t)(m < (int)sizeof msg ? m : (int)sizeof msg - 1));
+            _exit(65);
+        }
+    }
+    _exit(0);
+}
+static uint64_t firstuse_count() { return enabled("firstuse") ? (uint64_t)NHISTORY * (vf::thorough() ? 40 : 6) : 0; }
+static void firstuse_run(uint64_t idx)
+{
+    if (pf::skip_after_hangs())
+        return;
+    const History &H = HISTORY[idx % NHISTORY];
+    vf::Rng r(vf::seed(), 0xC13C, idx);
+    // the directives of this case and their warm-process renderings (judged by the ordinary oracles right here);
+    // the list is rotated so that different directives come first after the history
+    std::vector<FDir> dirs;
+    for (int i = 0; i < NCARRY; i++)
+        dirs.push_back(carry_dir(CARRY[((uint64_t)i + idx / NHISTORY) % NCARRY]));
+    int nrand = vf::thorough() ? 120 : 60;
+    for (int i = 0; i < nrand; i++)
+        dirs.push_back(random_grid_dir(r));
+    std::string input = std::to_string(idx % NHISTORY) + "\n";
+    for (size_t i = 0; i < dirs.size(); i++)
+    {
+        pf::Result warm;
+        check_one(dirs[i], "", "", &warm);
+        std::string fmt;
+        std::vector<Arg> args;
+        fmt_args(dirs[i], fmt, args);
+        char b[64];
+        input += fmt + "\t" + std::to_string(args.size() - 1);
+        for (size_t k = 0; k + 1 < args.size(); k++)
+        {
+            snprintf(b, sizeof b, "\t%llx", (unsigned long long)args[k].i);
+            input += b;
+        }
+        uint64_t bits;
+        memcpy(&bits, &dirs[i].x, 8);
+        snprintf(b, sizeof b, "\t%llx\t", (unsigned long long)bits);
+        input += b;
+        input += vf::hex(warm.bytes.data(), warm.bytes.size(), warm.bytes.size() + 1);
+        input += "\t" + std::to_string(warm.ret) + "\n";
+    }
+    flush_features();
+    char cls[80];
+    snprintf(cls, sizeof cls, "first-use:after-%s", H.name);
+    vf::cls(cls);
+    if (vf::verbose())
+        printf("  fresh process (re-executed binary); first conversion: %s; then %zu directives starting with %s\n", H.name, dirs.size(), dir_text(dirs[0]).c_str());
+    fflush(nullptr);
+    int pin[2], pout[2];
+    if (pipe(pin) != 0 || pipe(pout) != 0)
+        vf::fail("first-use:harness-pipe", "pipe failed");
+    pid_t pid = fork();
+    if (pid == 0)
+    {
+        close(pin[1]);
+        close(pout[0]);
+        prctl(PR_SET_PDEATHSIG, SIGKILL);
+        struct rlimit rl = {10, 12};
+        setrlimit(RLIMIT_CPU, &rl);
+        char env[64];
+        snprintf(env, sizeof env, "%d,%d", pin[0], pout[1]);
+        setenv("C13_FIRSTUSE_CHILD", env, 1);
+        char *argv[] = {(char *)"harness-firstuse-child", nullptr};
+        execv("/proc/self/exe", argv);
+        _exit(93);
+    }
+    close(pin[0]);
+    close(pout[1]);
+    for (size_t off = 0; off < input.size();)
+    {
+        ssize_t w = write(pin[1], input.data() + off, input.size() - off);
+        if (w <= 0)
+            break;
+        off += (size_t)w;
+    }
+    close(pin[1]);
+    char msg[1000];
+    ssize_t got = read(pout[0], msg, sizeof msg - 1);
+    msg[got > 0 ? got : 0] = 0;
+    close(pout[0]);
+    int st = 0;
+    waitpid(pid, &st, 0);
+    char key[vf::KEY_LEN];
+    if (WIFEXITED(st) && WEXITSTATUS(st) == 65)
+    {
+        snprintf(key, sizeof key, "first-use:after-%s:%%%c:!=warm-process", H.name, msg[0] ? msg[0] : '?');
+        vf::fail(key, "the first conversion of a fresh process was %s \"%s\"; %s", H.name, H.fmt, msg[0] ? msg + 2 : "(no witness)");
+    }
+    if (WIFEXITED(st) && WEXITSTATUS(st) == 66)
+    {
+        snprintf(key, sizeof key, "first-use:runaway-output:after-%s", H.name);
+        vf::fail(key, "fresh process (first conversion %s): a conversion emitted more than 100000 characters", H.name);
+    }
+    if (WIFSIGNALED(st) && (WTERMSIG(st) == SIGXCPU || WTERMSIG(st) == SIGKILL))
+    {
+        snprintf(key, sizeof key, "hang:firstuse@after-%s", H.name);
+        vf::fail(key, "fresh process (first conversion %s) did not finish %zu directives within 10 s of CPU time", H.name, dirs.size());
+    }
+    if (!(WIFEXITED(st) && WEXITSTATUS(st) == 0))
+    {
+        snprintf(key, sizeof key, "first-use:child-died:after-%s", H.name);
+        vf::fail(key, "fresh process (first conversion %s \"%s\") ended with status %#x (a sanitizer report, if any, is in the worker log)", H.name, H.fmt, st);
+    }
+    VF_OK("first use: after any first conversion a fresh process prints exactly what the warm process prints");
+    vf::count((std::string("first-use history seen: ") + H.name).c_str());
+    vf::count_case(vf::mix(idx, vf::seed() ^ 0xF1857), true);
+}
+VF_SUITE(firstuse, firstuse_count, firstuse_run)
+
 // ---------------------------------------------------------------- suite 4: re-entrancy — the output callback formats through the engine
 // (../C06/pf_nest.h) every (outer, inner) pair with at least one floating call; the inner call is injected at every
 // callback invocation of the outer one (padding, sign, digits, exponent); both streams and return values must be unchanged.
@@ -740,10 +1117,23 @@ VF_SUITE(reentrant, reent_count, reent_run)
 
 extern "C" void vf_setup()
 {
+    if (const char *fc = getenv("C13_FIRSTUSE_CHILD"))
+    {
+        // re-executed by firstuse_run: a process that has never formatted anything
+        int in = 0, out = 1;
+        sscanf(fc, "%d,%d", &in, &out);
+        unsetenv("C13_FIRSTUSE_CHILD");
+        firstuse_child(in, out);
+    }
     pf::setup();
     if (only_suite() && *only_suite())
         return;
     vf::require("re-entrancy: outer and inner stream and return value unchanged by the overlap");
+    vf::require("first use: after any first conversion a fresh process prints exactly what the warm process prints");
+    vf::require("large precision (18..5000) directive evaluated");
+    vf::require("large precision, exact short decimal value: whole text == host glibc");
+    for (int i = 0; i < NHISTORY; i++)
+        vf::require((std::string("first-use history seen: ") + HISTORY[i].name).c_str());
     for (const char *c : {"terminates with bounded output, return == characters emitted (every class of double)",
                           "non-finite argument: terminates, no sanitizer report, return == emitted",
                           "finite: ISO C shape of the directive (sign, padding, point, digit counts, exponent, g style)",
